@@ -90,17 +90,17 @@ pub fn builds_named_type(v: DecoderImplementation, name: &'static str) {
 macro_rules! c18_name {
     ($var:ident, $pp:ident, $cl:ident, $ty:ident) => {
         #[kani::proof]
-        #[kani::unwind(66)]
+        #[kani::unwind(50)]
         fn $pp() {
             print_parse(DecoderImplementation::$var, stringify!($var));
         }
         #[kani::proof]
-        #[kani::unwind(66)]
+        #[kani::unwind(50)]
         fn $cl() {
             clap_name(DecoderImplementation::$var, stringify!($var));
         }
         #[kani::proof]
-        #[kani::unwind(66)]
+        #[kani::unwind(50)]
         #[kani::stub(f64::exp, exp_identity)]
         #[kani::stub(f64::ln_1p, ln_1p_table)]
         fn $ty() {
@@ -114,7 +114,7 @@ include!("c18_names.rs");
 /// strings that are not one of the 36 names are rejected: for every ASCII string of up to 48
 /// bytes, a successful parse implies that the string is exactly the printed name of the result
 #[kani::proof]
-#[kani::unwind(66)]
+#[kani::unwind(50)]
 fn c18_reject_nonmembers_fromstr() {
     let bytes: [u8; 48] = kani::any();
     let n: usize = kani::any();
@@ -134,7 +134,7 @@ fn c18_reject_nonmembers_fromstr() {
 }
 
 #[kani::proof]
-#[kani::unwind(66)]
+#[kani::unwind(50)]
 fn c18_reject_nonmembers_clap() {
     let bytes: [u8; 48] = kani::any();
     let n: usize = kani::any();
